@@ -36,7 +36,8 @@ impl futures_lite::Stream for Incoming<'_> {
     type Item = Result<TcpStream>;
     fn poll_next(self: Pin<&mut Self>, c: &mut Context<'_>) -> Poll<Option<Self::Item>> {
         match tcp::poll_accept(&self.l.st, c) {
-            Poll::Ready(Some(conn)) => Poll::Ready(Some(Ok(TcpStream { conn }))),
+            Poll::Ready(Some(Ok(conn))) => Poll::Ready(Some(Ok(TcpStream { conn }))),
+            Poll::Ready(Some(Err(e))) => Poll::Ready(Some(Err(e.into()))),
             Poll::Ready(None) => Poll::Ready(None),
             Poll::Pending => Poll::Pending,
         }
